@@ -22,14 +22,14 @@ SPEC = {
                     "a panic of FastUnmarshalMultiRows on a truncated batch is counted (class prefix_panic, sites in notes) but not failed: in the WAL path a "
                     "truncated record is caught earlier by the snappy frame"],
     "campaigns": [
-        {"name": "int_block", "run": "^TestIntBlock$", "quick": B(3000, 2), "thorough": B(90000, 2, 3000)},
-        {"name": "time_block", "run": "^TestTimeBlock$", "quick": B(3000, 2), "thorough": B(90000, 2, 3000)},
-        {"name": "float_block", "run": "^TestFloatBlock$", "quick": B(3000, 2), "thorough": B(90000, 2, 3000)},
-        {"name": "bool_block", "run": "^TestBoolBlock$", "quick": B(2000, 1), "thorough": B(30000, 1, 3000)},
-        {"name": "string_block", "run": "^TestStringBlock$", "quick": B(2000, 2), "thorough": B(45000, 2, 3000)},
-        {"name": "record_codec", "run": "^TestRecordCodec$", "quick": B(4000, 1), "thorough": B(120000, 1, 3000)},
-        {"name": "row_batch", "run": "^TestRowBatch$", "quick": B(1200, 3), "thorough": B(15000, 3, 3000)},
-        {"name": "data_file", "run": "^TestDataFile$", "quick": B(1200, 3), "thorough": B(25000, 3, 3000)},
+        {"name": "int_block", "run": "^TestIntBlock$", "quick": B(6000, 2), "thorough": B(90000, 2, 3000)},
+        {"name": "time_block", "run": "^TestTimeBlock$", "quick": B(6000, 2), "thorough": B(90000, 2, 3000)},
+        {"name": "float_block", "run": "^TestFloatBlock$", "quick": B(6000, 2), "thorough": B(90000, 2, 3000)},
+        {"name": "bool_block", "run": "^TestBoolBlock$", "quick": B(4000, 1), "thorough": B(30000, 1, 3000)},
+        {"name": "string_block", "run": "^TestStringBlock$", "quick": B(4000, 2), "thorough": B(45000, 2, 3000)},
+        {"name": "record_codec", "run": "^TestRecordCodec$", "quick": B(8000, 1), "thorough": B(120000, 1, 3000)},
+        {"name": "row_batch", "run": "^TestRowBatch$", "quick": B(2400, 3), "thorough": B(15000, 3, 3000)},
+        {"name": "data_file", "run": "^TestDataFile$", "quick": B(2400, 3), "thorough": B(25000, 3, 3000)},
     ],
     "fuzz": [
         {"target": "FuzzFloatBlock", "seconds": 60},
